@@ -210,7 +210,8 @@ class Merge(Expr):
                 return (divisions[0], divisions[0])
             if self.left.npartitions == 1 and self.right.npartitions == 1:
                 return (min(divisions), max(divisions))
-            return divisions
+            if not self._is_single_partition_broadcast:
+                return divisions
 
         if self._is_single_partition_broadcast:
             use_left = self.right_index or _contains_index_name(
